@@ -775,6 +775,48 @@ func (x *vf18Env) probe() {
 	}
 }
 
+// flood: well-formed solicited PexAddrs with a content no honest peer sends - one node id announced
+// under many networks (it is filed in several buckets of the book), then more distinct node ids of
+// its first network than a bucket holds (the bucket overflows and expires its oldest entries),
+// optionally the same for a second id. Afterwards the book must still answer requests (probe).
+func (x *vf18Env) flood(r *vfRand, p *vf18Peer) {
+	x.o.Stat("flood/run")
+	mkID := func() string { return string(x.addr().ID) }
+	send := func(as []kp2p.NetAddress) {
+		if x.dead {
+			return
+		}
+		if !p.IsRunning() {
+			p = x.addPeer()
+		}
+		x.feed(p, "flood", mustEncode(&kp2p.PexAddrs{Addrs: as}), true)
+	}
+	for rep := 1 + r.Intn(2); rep > 0; rep-- {
+		a, b := byte(130+r.Intn(30)), byte(r.Intn(256))
+		xid := mkID()
+		send([]kp2p.NetAddress{{ID: xid, IP: fmt.Sprintf("%d.%d.1.1", a, b), Port: 26656}})
+		time.Sleep(2 * time.Millisecond) // strictly the oldest entry of its bucket
+		for i, n := 0, 4+r.Intn(28); i < n; i++ {
+			send([]kp2p.NetAddress{{ID: xid, IP: fmt.Sprintf("%d.%d.1.1", 130+(int(a)-130+1+i%29)%30, r.Intn(256)), Port: 26656}})
+		}
+		var fill []kp2p.NetAddress
+		for i, n := 0, 60+r.Intn(50); i < n; i++ {
+			fill = append(fill, kp2p.NetAddress{ID: mkID(), IP: fmt.Sprintf("%d.%d.%d.%d", a, b, 2+i/200, 1+i%200), Port: 26656})
+		}
+		for len(fill) > 0 {
+			k := r.Pick(1, 10, 100, 250)
+			if k > len(fill) {
+				k = len(fill)
+			}
+			send(fill[:k])
+			fill = fill[k:]
+		}
+	}
+	if !x.dead {
+		x.probe()
+	}
+}
+
 func TestVerifC18Pex(t *testing.T) {
 	o := vfOpen()
 	defer o.Close()
@@ -852,6 +894,9 @@ func TestVerifC18Pex(t *testing.T) {
 		}
 		if !x.dead {
 			x.probe()
+		}
+		if !x.dead && !x.seed && i%4 == 1 {
+			x.flood(r, p)
 		}
 		o.Case(hex.EncodeToString(h.Sum(nil)), x.hit)
 	}
